@@ -310,12 +310,16 @@ def run(chk, rng, replay=None):
         regimes["enh"] += sum(1 for o in c["ops"] if o[0] == "enh")
     # (ii) real runs
     n_ops = n_scans = n_removes = n_pen = n_centres = 0
+    run_failures = []
     reqs, keys = [], []
     for d in descs:
         try:
             log = real_run(d)
+        except (ValueError, TypeError) as exc:          # the documented rejections of malformed settings
+            chk.notes.append("run rejected: " + type(exc).__name__)
+            continue
         except Exception as exc:  # noqa
-            chk.notes.append("run failed: " + type(exc).__name__)
+            run_failures.append(type(exc).__name__ + ": " + str(exc)[:120])
             continue
         rhoend = log["rhoend"]
         for op in log["ops"]:
@@ -365,6 +369,7 @@ def run(chk, rng, replay=None):
         "samples": [comp[-1]] if comp else [descs[-1]],
         "component_cases": len(comp), "real_runs": len(descs), "radius_ops_in_runs": n_ops, "best_index_scans": n_scans,
         "index_to_remove_calls": n_removes, "penalty_updates": n_pen, "centre_checks_at_iteration_start": n_centres, "correspondence_mismatches": len(mism),
+        "real_runs_that_raised_something_else_than_ValueError": len(run_failures),
     })
     chk.assumptions += ["theorems are over exact rationals; binary64 satisfies the same order facts because rounding is monotone (fl(c*x) >= x for c >= 1) - checked on the implementation's own values in every case above",
                         "finiteness of the penalty is only monitored (it is a quotient of model values)"]
@@ -387,3 +392,5 @@ def run(chk, rng, replay=None):
             rep.update({"correspondence": "TrustRegion radius rules / set_best_index / get_index_to_remove vs Model/Radius.lean",
                         "case": c, "implementation": str(mine)[:500], "model": str(model)[:500]})
         chk.violation(rep, no_input=True)
+    if run_failures and not chk.violations:
+        raise RuntimeError(f"{len(run_failures)} hooked runs failed, first: {run_failures[0]}")
